@@ -27,6 +27,9 @@ namespace rkcommon {
 
       int numThreadsTaskSystemInternal()
       {
+        if (g_ts.get() == nullptr)
+          initTaskSystemInternal(-1);
+
         return g_ts->GetNumTaskThreads();
       }
 
